@@ -94,6 +94,24 @@ def subsequence(ctx):
                       'known to belong to the master chain: a pruned secret survives the refresh' % c.ln,
                       'dominated by the equal edge of a comparison with a master-chain element', c.where())
     ctx.floor(n, 3, 'pushes onto the refreshed chain')
+    # what is handed back for a right is the chain rebuilt by those pushes — never the user's own chain returned as it came
+    m = 0
+    for body in lib.family_ext(F, 'core::primitives::refresh_coordinate_keys'):
+        for b in sorted(body.live_blocks()):
+            for st in body.stmts(b):
+                rv = st['rv']
+                if not (rv['k'] == 'agg' and rv.get('tuple') and len(rv['ops']) == 2 and 'Right' in body.local_ty(st['lhs']['l'])
+                        and 'LinkedList<core::RightSecretKey>' in body.local_ty(st['lhs']['l'])):
+                    continue
+                m += 1
+                srcs = copy_chain_sources(body, rv['ops'][1], through_calls=IDENTITY_CALLS)
+                fresh = bool(srcs) and all(s[0] == 'call' and s[1].is_(r'LinkedList::<[^>]*>::new$') for s in srcs)
+                ctx.check(fresh, 'core::primitives::refresh_coordinate_keys', 'returned chain = the rebuilt chain',
+                          'the chain paired with a right (line %d) is not the list rebuilt from the master chain (%s): the user\'s own '
+                          'chain is handed back unchecked — secrets pruned, rotated out or whose flavour changed survive the refresh'
+                          % (st['ln'], [(s[0], getattr(s[1], 'name', s[1])) for s in srcs][:2]), 'LinkedList::new() filled by the merge',
+                          body.where(st['ln']))
+    ctx.floor(m, 1, 'refreshed (right, chain) pairs')
 
 
 @rule('C05', 'unknown-rights-dropped', configs=('default', 'p256'))
